@@ -7,11 +7,15 @@ R2 every write through the store graph addresses nodes by an internal id obtaine
 R3 allocators only advance by the inserted count; nothing is inserted before an import is validated
 R4 clone = extract (a copy) -> add under the new id
 R5 whole-store operations are confined to the storage classes; a graph is deleted through a scoped query
+R6 re-import: the one-graph-per-store flavour may skip an import only when a non-empty graph is stored under the id
+   (its table is a defaultdict and del_graph keeps the key, so membership alone does not mean "imported")
 """
 import ast
 
-from ..core import AnalysisError, norm, loc, walk_no_nested, attr_chain, call_name
+from ..core import AnalysisError, norm, loc, walk_no_nested, attr_chain, call_name, kwarg, func_params
+from ..normalize import local_env, expand, ctext, canon, conjuncts
 from .. import nxgraph as nxg
+from .. import flow
 
 ALLOWED_STORE_METHODS = {'nodes', 'edges', 'remove_node', 'add_edge'}
 WHOLE_STORE_OPS = {'clear', 'remove_nodes_from', 'remove_edges_from', 'add_nodes_from', 'add_edges_from', 'update',
@@ -31,6 +35,7 @@ def run(prog, rep):
     rep.rule('R3', 'allocator discipline; insertion only after validation', floor=8)
     rep.rule('R4', 'clone goes extract(copy) -> add', floor=1)
     rep.rule('R5', 'whole-store operations confined to the storage classes', floor=2)
+    rep.rule('R6', 'a deleted or merely looked-up graph id can be imported again (one-graph-per-store flavour)', floor=1)
 
     storage_classes = {nxg.storage_class(prog, nxg.SHARED_SHELL), nxg.storage_class(prog, nxg.DISJ_SHELL)}
 
@@ -40,6 +45,8 @@ def run(prog, rep):
             if m is not mod:
                 continue
             fq = (cls.name + '.' if cls else '') + fn.name
+            if cls is not None:
+                fn = nxg.method(prog, cls, fn)
             aliases = nxg.store_graph_aliases(fn)
             in_storage = cls in storage_classes
             # ---- R1 ----
@@ -66,8 +73,16 @@ def run(prog, rep):
                     continue
                 vtxt = ast.unparse(gid[0])
                 params = {a.arg for a in fn.args.args + fn.args.kwonlyargs}
-                ok = vtxt in ('self.graph_id', 'use_graph_id') or (vtxt in params and 'graph_id' in vtxt) or \
-                    vtxt.endswith('.graph_id')
+
+                def is_gid(e):
+                    if isinstance(e, ast.IfExp):
+                        return is_gid(e.body) and is_gid(e.orelse)
+                    t = ast.unparse(e)
+                    return t == 'self.graph_id' or (t in params and 'graph_id' in t) or t.endswith('.graph_id')
+                alts = [gid[0]]
+                if isinstance(gid[0], ast.Name) and gid[0].id not in params:
+                    alts = flow.reaching_values(fn, gid[0].id) or [gid[0]]
+                ok = all(is_gid(a) for a in alts)
                 if not ok:
                     rep.violation('R1', loc(mod, call), fq, norm(call.args[1], 140),
                                   f'the GraphID conjunct compares with {vtxt}, which is not the graph id of this handle / call')
@@ -132,23 +147,83 @@ def run(prog, rep):
     # ---- R3 ----
     nxg.check_allocators(prog, rep, 'R3')
 
+    # ---- R6: an id that was deleted (or only looked up) can be imported again ----
+    dj = nxg.storage_class(prog, nxg.DISJ_SHELL)
+    init = dj.methods.get('__init__')
+    auto = set()      # attributes that are defaultdicts: reading self.X[k] creates the entry
+    for n in walk_no_nested(init):
+        if isinstance(n, ast.Assign) and isinstance(n.value, ast.Call) and call_name(n.value) == 'defaultdict':
+            for t in n.targets:
+                ch = attr_chain(t)
+                if ch and ch[0] == 'self' and len(ch) == 2:
+                    auto.add(ch[1])
+    ag0 = dj.methods.get('add_graph')
+    if ag0 is None:
+        raise AnalysisError('disjoint add_graph vanished')
+    ag = nxg.method(prog, dj, ag0)
+    gid = [p_ for p_ in func_params(ag) if p_ != 'self'][0]
+    for n in walk_no_nested(ag):
+        if not (isinstance(n, ast.If) and any(isinstance(x, ast.Return) for x in n.body)):
+            continue
+        cjs = conjuncts(canon(n.test))
+        member = [c for c in cjs if isinstance(c, ast.Compare) and len(c.ops) == 1 and isinstance(c.ops[0], ast.In) and
+                  isinstance(c.left, ast.Name) and c.left.id == gid and (attr_chain(c.comparators[0]) or [None, None])[:1] == ['self']]
+        if not member:
+            continue
+        store_attr = attr_chain(member[0].comparators[0])[1]
+        others = [c for c in cjs if c is not member[0]]
+        rep.instance('R6', f'{dj.name}.add_graph skips the import when `{norm(n.test, 90)}`')
+        if others:
+            continue        # presence is not judged by membership alone
+        # membership alone: sound only if no entry can exist without an imported graph
+        leftovers = []
+        dg = dj.methods.get('del_graph')
+        removes = dg is not None and any(
+            (isinstance(x, ast.Delete) and any(ast.unparse(t).startswith(f'self.{store_attr}[') for t in x.targets)) or
+            (isinstance(x, ast.Call) and call_name(x) == 'pop' and ast.unparse(x.func.value) == f'self.{store_attr}')
+            for x in ast.walk(nxg.method(prog, dj, dg)))
+        if not removes:
+            leftovers.append('del_graph empties the graph but keeps its entry')
+        if store_attr in auto:
+            for mname, m_ in dj.methods.items():
+                if mname in ('add_graph', 'add_graph_direct', '__init__'):
+                    continue
+                if any(isinstance(x, ast.Subscript) and isinstance(x.ctx, ast.Load) and ast.unparse(x.value) == f'self.{store_attr}' for x in ast.walk(m_)):
+                    leftovers.append(f'{mname} reads self.{store_attr}[id], which creates an empty entry in the defaultdict')
+        if leftovers:
+            rep.violation('R6', loc(dj.module, n), f'{dj.name}.add_graph', f'import skipped when `{norm(n.test, 80)}`',
+                          f'add_graph treats any entry of self.{store_attr} as an imported graph and silently skips the import, but '
+                          f'entries exist without a graph: {"; ".join(leftovers[:3])}. Deleting a graph and importing it again under '
+                          f'the same id (or importing under an id that was only looked up) yields an empty graph on this store '
+                          f'while the shared store imports it')
+
     # ---- R4 ----
     nxpg = prog.cls(nxg.NXPG)
     cg = nxpg.methods.get('clone_graph')
     if cg is None:
         raise AnalysisError('NetworkXPropertyGraph.clone_graph vanished')
-    txt = ast.unparse(cg)
+    cg = nxg.method(prog, nxpg, cg)
+    cenv = local_env(cg)
     rep.instance('R4', f'clone_graph: {[norm(s, 90) for s in cg.body if isinstance(s, (ast.Assign, ast.Expr)) and not isinstance(getattr(s, "value", None), ast.Constant)]}')
     ext = [n for n in walk_no_nested(cg) if isinstance(n, ast.Call) and call_name(n) == 'extract_graph']
     add = [n for n in walk_no_nested(cg) if isinstance(n, ast.Call) and call_name(n) == 'add_graph']
-    if not ext or ast.unparse(ext[0].args[0]) != 'self.graph_id':
+    params = func_params(cg)
+
+    def arg(call, i, name):
+        return kwarg(call, name) or (call.args[i] if len(call.args) > i else None)
+    if not ext or ctext(arg(ext[0], 0, 'graph_id'), cenv) != 'self.graph_id':
         rep.violation('R4', loc(nxpg.module, cg), 'NetworkXPropertyGraph.clone_graph', 'source not extracted by its own id', 'the clone must start from a copy of this graph')
-    if not add or ast.unparse(add[0].args[0]) != 'new_graph_id':
+    new_id = [p for p in params if p != 'self']
+    if not add or not new_id or ctext(arg(add[0], 0, 'graph_id'), cenv) != new_id[0]:
         rep.violation('R4', loc(nxpg.module, cg), 'NetworkXPropertyGraph.clone_graph', 'copy not added under the new id',
                       'the clone must be inserted with add_graph(new_graph_id, ...) which relabels to fresh internal ids and stamps the new GraphID')
-    if add and ext and not (isinstance(add[0].args[1], ast.Name) or 'extract_graph' in ast.unparse(add[0].args[1])):
-        rep.violation('R4', loc(nxpg.module, cg), 'NetworkXPropertyGraph.clone_graph', 'clone source', 'the clone is not built from the extracted copy')
-    if 'get_graph' in txt:
+    if add and ext:
+        g = arg(add[0], 1, 'graph')
+        src_ok = g is not None and any(isinstance(c, ast.Call) and call_name(c) == 'extract_graph' for v in ([g] + (flow.reaching_values(cg, g.id) if isinstance(g, ast.Name) else []))
+                                       for c in ast.walk(v))
+        if not src_ok:
+            rep.violation('R4', loc(nxpg.module, cg), 'NetworkXPropertyGraph.clone_graph', 'clone source', 'the clone is not built from the extracted copy')
+    if any(isinstance(c, ast.Call) and call_name(c) == 'get_graph' for c in ast.walk(cg)):
         rep.violation('R4', loc(nxpg.module, cg), 'NetworkXPropertyGraph.clone_graph', 'clone touches the live store graph', 'clone must work on an extracted copy')
 
     # ---- R5 ----
@@ -156,7 +231,7 @@ def run(prog, rep):
     dg = [f for n, f in st.methods.items() if n.endswith('del_graph_nl')]
     if not dg:
         raise AnalysisError('non-locking delete helper vanished')
-    dg = dg[0]
+    dg = nxg.method(prog, st, dg[0])
     rm = [n for n in walk_no_nested(dg) if isinstance(n, ast.Call) and call_name(n) == 'remove_nodes_from']
     sc = nxg.search_calls(dg)
     rep.instance('R5', f'{st.name}.{dg.name}: {norm(rm[0]) if rm else "?"} from {norm(sc[0].args[1]) if sc else "?"}')
@@ -207,6 +282,8 @@ MUTANTS = [
      'find': '        self.storage.add_graph(new_graph_id, new_graph)', 'replace': '        self.storage.add_graph(self.graph_id, new_graph)'},
     {'name': 'delete-graph-clears-store', 'file': NX, 'rule': 'R5',
      'find': '        self.storage.del_graph(self.graph_id)\n\n    def get_node_properties', 'replace': '        self.storage.get_graph(self.graph_id).clear()\n\n    def get_node_properties'},
+    {'name': 'reimport-skipped-on-leftover-entry', 'file': 'fim/graph/networkx_property_graph_disjoint.py', 'rule': 'R6',
+     'find': 'if graph_id in self.graphs.keys() and len(self.graphs[graph_id].nodes) > 0:', 'replace': 'if graph_id in self.graphs.keys():'},
 ]
 TWINS = [
     {'name': 'conjunct-order-swapped', 'file': NX,
